@@ -159,7 +159,8 @@ def quadCell(img, **kwargs):
     xSum = img.sum(-2)
     ySum = img.sum(-1)
 
-    xCent = xSum[...,1] - xSum[...,0]
-    yCent = ySum[...,1] - ySum[...,0]
+    # differences in floating point: sums of unsigned pixel counts cannot hold a negative signal
+    xCent = numpy.subtract(xSum[...,1], xSum[...,0], dtype=float)
+    yCent = numpy.subtract(ySum[...,1], ySum[...,0], dtype=float)
 
     return numpy.array([xCent, yCent])
